@@ -4,7 +4,7 @@
    trivia); declarations and statements are decided by the search (see tools/props/C01.py). *)
 From Coq Require Import List NArith Bool String Arith.
 From Verif Require Import Base.Res Gen.GenTokens Gen.GenPrec Model.Lexer Model.ExprParser Proofs.ExprParserProofs Proofs.ExprInstance.
-From Verif Require Model.StParser Model.StInstance Proofs.StExprProofs Proofs.StStmtProofs Proofs.StInstanceProofs.
+From Verif Require Model.StParser Model.DeclParser Model.StInstance Proofs.StExprProofs Proofs.StStmtProofs Proofs.StInstanceProofs Proofs.DeclProofs Proofs.DeclInstanceProofs.
 Import ListNotations.
 Local Open Scope string_scope.
 
@@ -80,3 +80,29 @@ Theorem C01_statement_operator_levels :
   map StInstance.op_level [BOr; BXor; BAnd; BEq; BNe; BLt; BGt; BLe; BGe; BAdd; BSub; BMul; BDiv; BMod; BPow] =
   [0; 1; 2; 3; 3; 4; 4; 4; 4; 5; 5; 6; 6; 6; 7].
 Proof. exact StInstanceProofs.op_levels_table. Qed.
+
+(* Variable declaration blocks (B.1.4.3), model of Model/DeclParser.v on the real tokens: every well-formed spelling of
+   FUNCTION_BLOCK name, any number of VAR_INPUT / VAR_OUTPUT / VAR_IN_OUT / VAR_EXTERNAL / VAR blocks (with their RETAIN /
+   NON_RETAIN / CONSTANT qualifiers, name lists, elementary or named types, constant and enumerated initial values,
+   edge-detecting inputs, empty blocks), a statement list and END_FUNCTION_BLOCK -- any trivia at any slot -- is parsed to
+   exactly the declarations, in order, with the class and qualifier of their block, and the statements it denotes. *)
+Theorem C01_declarations_faithful : forall w00 fb w0 nm (bl : list (DeclProofs.swb token)) w1 (l : StStmtProofs.sl token) w2 en w3,
+  StExprProofs.all_triv token StInstance.tok_class w00 -> t_kind fb = KFunctionBlock ->
+  StExprProofs.all_triv token StInstance.tok_class w0 -> t_kind nm = KIdentifier ->
+  Forall (DeclProofs.wf_wb token StInstance.tok_class) bl ->
+  StExprProofs.all_triv token StInstance.tok_class w1 ->
+  StStmtProofs.wf_l token StInstance.tok_class StInstance.op_level true l ->
+  StExprProofs.all_triv token StInstance.tok_class w2 -> t_kind en = KEndFunctionBlock ->
+  StExprProofs.all_triv token StInstance.tok_class w3 ->
+  (StStmtProofs.absorbs token l = true -> w2 = []) ->
+  StInstance.parse_fbd_tokens (w00 ++ fb :: w0 ++ nm :: DeclProofs.flat_wbs token bl ++ w1 ++ StStmtProofs.flat_l token l ++ w2 ++ en :: w3)
+  = StInstance.O2Parsed (flat_map (DeclProofs.erase_wb token StInstance.tok_class t_text StInstance.tok_num StInstance.ty_name) bl)
+                        (StStmtProofs.erase_l token t_text StInstance.tok_num l).
+Proof. exact DeclInstanceProofs.parse_fbd_spelled. Qed.
+
+(* the sequence of blocks alone, with an explicit fuel bound *)
+Theorem C01_declaration_blocks : forall (l : list (DeclProofs.swb token)), Forall (DeclProofs.wf_wb token StInstance.tok_class) l ->
+  forall acc rest f, DeclProofs.no_block_next token StInstance.tok_class rest -> (DeclProofs.size_wbs token l + 1 <= f)%nat ->
+  DeclParser.blocks token StInstance.tok_class t_text StInstance.tok_num StInstance.ty_name f acc (DeclProofs.flat_wbs token l ++ rest) =
+  DeclParser.DOk (acc ++ flat_map (DeclProofs.erase_wb token StInstance.tok_class t_text StInstance.tok_num StInstance.ty_name) l, rest).
+Proof. exact (DeclProofs.blocks_spelled token StInstance.tok_class t_text StInstance.tok_num StInstance.ty_name). Qed.
